@@ -85,6 +85,16 @@ Section Generic.
              (c : nat) : R :=
     rsub (radd (acc c) (div_cell D (flux D Pp a lam) c)) (source Ps lam ext c).
 
+  (* The same with possibly DIFFERENT interface fluxes on the two sides of the coupling:
+     lamf enters the face fluxes of the higher-dimensional cells, lams the source of the
+     lower-dimensional cells.  With the standard constitutive laws lamf = lams; with
+     constitutive_laws.AdTpfaFlux (DarcysLawAd / FouriersLawAd) the diffusive interface flux
+     is applied on EXTERNAL Neumann faces only (neu_bnd = external_neu_filter * bnd_sgn), so it
+     is missing from lamf while it is part of lams. *)
+  Definition residual2 (D : list inc) (Pp Ps : list wtr) (acc a lamf lams ext : nat -> R)
+             (c : nat) : R :=
+    rsub (radd (acc c) (div_cell D (flux D Pp a lamf) c)) (source Ps lams ext c).
+
   Definition total (n : nat) (g : nat -> R) : R := sumover (seq 0 n) g.
 End Generic.
 
@@ -108,6 +118,7 @@ Definition qflux := flux Q 0 1 Qplus Qmult Qopp.
 Definition qdiv := div_cell Q 0 1 Qplus Qmult Qopp.
 Definition qsource := source Q 0 Qplus Qmult.
 Definition qresidual := residual Q 0 1 Qplus Qmult Qminus Qopp.
+Definition qresidual2 := residual2 Q 0 1 Qplus Qmult Qminus Qopp.
 Definition qtotal := total Q 0 Qplus.
 
 (* The structure of one md-grid as the harness reads it from the real operators. *)
@@ -141,7 +152,9 @@ Definition cert_ok (S : structure) : bool :=
 Record evaluation := {
   e_acc : list Q;      (* dt(accumulation) per cell *)
   e_flux : list Q;     (* the model's flux operator per face *)
-  e_lam : list Q;      (* total interface flux per mortar cell *)
+  e_lam : list Q;      (* total interface flux per mortar cell (enters the source) *)
+  e_lamf : list Q;     (* interface flux that enters the face fluxes (= e_lam unless a
+                          differentiable diffusive law leaves its interface flux out) *)
   e_src : list Q;      (* the model's source operator per cell *)
   e_div : list Q;      (* Divergence @ flux per cell *)
   e_res : list Q }.    (* the balance equation per cell *)
@@ -151,7 +164,7 @@ Definition sumabs (l : list Q) : Q := fold_right (fun x s => Qabs x + s) 0 l.
 Definition qsum (l : list Q) : Q := fold_right Qplus 0 l.
 
 Definition scale_of (E : evaluation) : Q :=
-  Qred (1 + sumabs (e_acc E) + sumabs (e_flux E) + sumabs (e_lam E)).
+  Qred (1 + sumabs (e_acc E) + sumabs (e_flux E) + sumabs (e_lam E) + sumabs (e_lamf E)).
 
 Definition close (sc a b : Q) : bool :=
   Qle_bool (Qabs (a - b)) ((1 # 1000000000) * sc).
@@ -169,7 +182,7 @@ Definition intrinsic (S : structure) (E : evaluation) (f : nat) : Q :=
   if is_boundary (s_div S) f then 0 else vec (e_flux E) f.
 
 Definition model_flux (S : structure) (E : evaluation) : list Q :=
-  map (fun f => Qred (qflux (s_div S) (s_pp S) (intrinsic S E) (vec (e_lam E)) f))
+  map (fun f => Qred (qflux (s_div S) (s_pp S) (intrinsic S E) (vec (e_lamf E)) f))
       (seq 0 (s_nf S)).
 Definition model_src (S : structure) (E : evaluation) : list Q :=
   map (fun c => Qred (qsource (s_ps S) (vec (e_lam E)) (fun _ => 0) c)) (seq 0 (s_nc S)).
@@ -177,18 +190,20 @@ Definition model_div (S : structure) (E : evaluation) : list Q :=
   let q := vec (model_flux S E) in
   map (fun c => Qred (qdiv (s_div S) q c)) (seq 0 (s_nc S)).
 Definition model_res (S : structure) (E : evaluation) : list Q :=
-  map (fun c => Qred (qresidual (s_div S) (s_pp S) (s_ps S) (vec (e_acc E)) (intrinsic S E)
-                                (vec (e_lam E)) (fun _ => 0) c)) (seq 0 (s_nc S)).
+  map (fun c => Qred (qresidual2 (s_div S) (s_pp S) (s_ps S) (vec (e_acc E)) (intrinsic S E)
+                                 (vec (e_lamf E)) (vec (e_lam E)) (fun _ => 0) c)) (seq 0 (s_nc S)).
 
 Definition agree_eval (S : structure) (E : evaluation) : bool :=
   let sc := scale_of E in
   (length (e_acc E) =? s_nc S)%nat && (length (e_lam E) =? s_nm S)%nat
+  && (length (e_lamf E) =? s_nm S)%nat
   && all2 (close sc) (model_flux S E) (e_flux E)
   && all2 (close sc) (model_src S E) (e_src E)
   && all2 (close sc) (model_div S E) (e_div E)
   && all2 (close sc) (model_res S E) (e_res E)
-  (* the conservation identity on the real residuals *)
-  && close sc (qsum (e_res E)) (qsum (e_acc E)).
+  (* the conservation identity on the real residuals, with the deficit the model predicts
+     when the two interface fluxes differ (zero when they are the same) *)
+  && close sc (qsum (e_res E)) (qsum (e_acc E) + qsum (e_lamf E) - qsum (e_lam E)).
 
 Definition agree (S : structure) (Es : list evaluation) : bool :=
   cert_ok S && forallb (agree_eval S) Es.
